@@ -128,7 +128,7 @@ func (g s1Gen) query() string {
 	return b.String()
 }
 
-// s2Query: stage S2b — one directed hop with WHERE conjuncts over single variables, every variable read by the RETURN.
+// s2Query: stage S2b — one directed hop with WHERE conjuncts over single variables; the RETURN reads any non-empty selection of a, r, b.
 func (g s1Gen) s2Query() string {
 	kinds := func(opts []string) string { return Pick(g.rng, opts) }
 	a := "(a" + kinds([]string{"", "", ":NodeKind1", ":NodeKind2:NodeKind1"}) + ")"
@@ -144,8 +144,9 @@ func (g s1Gen) s2Query() string {
 			return v + "." + Pick(g.rng, []string{"name", "a", "w", "zz"})
 		}
 	}
-	items := []string{mk("a"), mk("r"), mk("b")}
-	for i := g.rng.Intn(3); i > 0; i-- {
+	// any non-empty selection of the variables may be returned: the optimised translator prunes the frame to the bindings that are read
+	items := []string{mk(Pick(g.rng, []string{"a", "r", "b"}))}
+	for i := g.rng.Intn(4); i > 0; i-- {
 		items = append(items, mk(Pick(g.rng, []string{"a", "r", "b"})))
 	}
 	for i := range items {
